@@ -71,8 +71,9 @@ def comparators(P, R, rule='C19.ARITH.1'):
     if ci is not None:
         ok_t = True
         seen_t = set()
-        for s in ci.sites():
-            for ex in rules.event_exprs(s.ev):
+        allex = [ex for s in ci.sites() for ex in rules.event_exprs(s.ev)] + [(b.get('term') or {}).get('cond') for b in ci.blocks.values() if isinstance((b.get('term') or {}).get('cond'), dict)]
+        for ex in allex:
+            if True:
                 for x in walk(ex):
                     if x.get('k') == 'un' and x['op'] == '*' and is_var(x['e']) and x['e'].get('sc') == 'local':
                         t = x['e'].get('t', '')
@@ -82,19 +83,57 @@ def comparators(P, R, rule='C19.ARITH.1'):
     R.floor(rule, 4, 'comparator returns')
 
 
+class _Disp(object):
+    """Where the container disposes of an element: calls of the dispose helper, or - when cleanup and free are
+    written out in insert / remove / clear themselves - the free of the node that follows the cleanup call."""
+    def __init__(self, P, helper, slot_calls):
+        self.P, self.helper, self.slot_calls = P, helper, slot_calls
+        self.name = helper.name if helper is not None else 'cleanup+free'
+
+    def calls_in(self, f):
+        if self.helper is not None:
+            return [s for s in f.calls(self.helper.name)]
+        out = []
+        for c in self.slot_calls:
+            if c.fn is not f:
+                continue
+            frees = [t for t in f.calls() if t.ev.get('callee') in ('free', 'xfree') and t.ev['args'] and (t.bid in f.reach([c.bid]) or (t.bid == c.bid and t.idx > c.idx))]
+            if frees:
+                first = min(frees, key=lambda t: (t.line, t.idx))
+                if first not in out:
+                    out.append(first)
+        return out
+
+    def node_arg(self, s):
+        return s.ev['args'][1] if self.helper is not None else s.ev['args'][0]
+
+
 def cleanup_callers(P, R, rule='C19.WMC.1'):
     calls = [s for f in P.fns.values() for s in f.calls() if P.call_slot(s) == 'set::cleanup']
-    R.ob(rule, len(calls) == 1, calls[0] if calls else P.need_fn('set_insert'), 'the cleanup callback is invoked from exactly one place (%s)' % [c.fn.name for c in calls], key='cleanup-caller')
-    disp = calls[0].fn if calls else None
-    if disp is None:
+    if not calls:
         raise AnalysisBroken('no caller of the set cleanup slot')
-    cs = P.callers(disp, may=False)
-    names = sorted({s.fn.name for s in cs})
-    R.ob(rule, set(names) <= {'set_insert', 'set_remove', 'set_clear'} and len(cs) == 3, disp, 'the dispose helper is called only by insert-replace, remove and clear (%s)' % names, key='dispose-callers')
-    # dispose = cleanup (if any) then free of the node
-    fr = [s for s in disp.calls('free')]
-    p = disp.path_avoiding(None, lambda t: t in fr, from_entry=True)
-    R.ob(rule, bool(fr) and p is None and all(disp.before(calls[0], t) or True for t in fr), disp, 'the dispose helper frees the node on every path, after the cleanup', key='dispose-frees')
+    owners = {c.fn.name for c in calls}
+    api = {'set_insert', 'set_remove', 'set_clear'}
+    helper = None
+    if len(owners) == 1 and not owners <= api:
+        helper = calls[0].fn
+    ok_where = (helper is not None and len(calls) == 1) or (helper is None and owners <= api)
+    R.ob(rule, ok_where, calls[0], 'the cleanup callback is invoked by the dispose helper alone, or directly by insert-replace / remove / clear (%s)' % sorted(owners), key='cleanup-caller')
+    disp = _Disp(P, helper, calls)
+    if helper is not None:
+        cs = P.callers(helper, may=False)
+        names = sorted({s.fn.name for s in cs})
+        R.ob(rule, set(names) <= api and len(cs) == 3, helper, 'the dispose helper is called only by insert-replace, remove and clear (%s)' % names, key='dispose-callers')
+        fr = [s for s in helper.calls() if s.ev.get('callee') in ('free', 'xfree')]
+        p = helper.path_avoiding(None, lambda t: t in fr, from_entry=True)
+        R.ob(rule, bool(fr) and p is None, helper, 'the dispose helper frees the node on every path, after the cleanup', key='dispose-frees')
+    else:
+        for c in calls:
+            f = c.fn
+            fr = [t for t in f.calls() if t.ev.get('callee') in ('free', 'xfree')]
+            p = f.path_avoiding(c, lambda t: t in fr)
+            R.ob(rule, bool(fr) and p is None, c, '%s frees the node on every path after its cleanup ran' % f.name, key='dispose-frees')
+        R.ob(rule, owners == api, calls[0], 'insert-replace, remove and clear each dispose of elements (%s)' % sorted(owners), key='dispose-callers', nontrivial=False)
     return disp
 
 
@@ -102,22 +141,22 @@ def dispose_guards(P, R, disp, rule='C19.GRD.1'):
     ins, rem, clr = P.need_fn('set_insert'), P.need_fn('set_remove'), P.need_fn('set_clear')
     for f in (rem, clr):
         nd = [p for p in f.params if p == 'no_dispose']
-        for s in f.calls(disp.name):
+        for s in disp.calls_in(f):
             ok = any(is_var(g[0], 'no_dispose') and g[1] == '==' and const_of(g[2]) == 0 for g in f.guards(s.bid))
             R.ob(rule, ok, s, '%s disposes the element only when no_dispose is zero' % f.name, key='guard:%s' % f.name)
     # remove: the node is off the tree and the list before it is disposed
-    for s in rem.calls(disp.name):
+    for s in disp.calls_in(rem):
         root_w = [t for t in rem.stores() if t.ev['k'] == 'store' and is_field(t.ev['lhs'], 'root', 'set') and t.ev.get('op') == '=']
         last_root = [t for t in root_w if rem.dominates(t.bid, s.bid) and not is_var(t.ev.get('rhs'), 'old_root')]
         R.ob(rule, bool(last_root), s, 'the root no longer points at the element when it is disposed', key='detached:tree')
         cnt = [t for t in rem.stores() if t.ev['k'] == 'store' and is_field(t.ev['lhs'], 'count', 'set')]
         R.ob(rule, bool(cnt) and all(rem.dominates(t.bid, s.bid) for t in cnt), s, 'the count is already adjusted when the element is disposed', key='detached:count', nontrivial=False)
     # clear: root nulled before the first dispose
-    for s in clr.calls(disp.name):
+    for s in disp.calls_in(clr):
         rn = [t for t in clr.stores() if t.ev['k'] == 'store' and is_field(t.ev['lhs'], 'root', 'set') and const_of(t.ev.get('rhs')) == 0]
         R.ob(rule, bool(rn) and all(clr.dominates(t.bid, s.bid) for t in rn), s, 'clear empties the root before disposing elements', key='detached:clear')
     # insert-replace: after disposing the old root the root is overwritten on every path
-    for s in ins.calls(disp.name):
+    for s in disp.calls_in(ins):
         p = ins.path_avoiding(s, lambda t: t.ev['k'] == 'store' and is_field(t.ev['lhs'], 'root', 'set') and t.ev.get('op') == '=')
         R.ob(rule, p is None, s, 'after the replaced root is disposed the root pointer is overwritten on every path', key='detached:replace')
         cp = [t for t in ins.calls('memcpy') if is_var(t.ev['args'][0], ins.params[1])]
@@ -125,7 +164,7 @@ def dispose_guards(P, R, disp, rule='C19.GRD.1'):
     R.floor(rule, 6)
 
 
-def count_paths(P, R, rule='C19.MPT.1'):
+def count_paths(P, R, rule='C19.MPT.1', disp=None):
     ins, rem, clr = P.need_fn('set_insert'), P.need_fn('set_remove'), P.need_fn('set_clear')
 
     def count_df(f):
@@ -145,7 +184,7 @@ def count_paths(P, R, rule='C19.MPT.1'):
     before, at_exit, _, _ = count_df(ins)
     ok = bool(at_exit) and all(inc == 1 and dec <= 1 for inc, dec, z in at_exit)
     R.ob(rule, ok, ins, 'every path of insert increments the count exactly once (and decrements at most once, on replacement): %s' % sorted(at_exit), key='insert:count')
-    disp_calls = [s for s in ins.calls() if s.ev.get('callee') == 'set_dispose_node']
+    disp_calls = disp.calls_in(ins) if disp is not None else [s for s in ins.calls() if s.ev.get('callee') == 'set_dispose_node']
     for s in disp_calls:
         decs = [t for t in ins.stores() if t.ev['k'] == 'store' and is_field(t.ev['lhs'], 'count', 'set') and t.ev.get('op') == '--']
         p = ins.path_avoiding(s, lambda t: t in decs)
@@ -309,8 +348,8 @@ def link_remove(P, R, rule='C19.LINK.2'):
 def use_after_dispose(P, R, disp, rule='C19.UAF.1'):
     n = 0
     for f in P.unit_fns(UNIT):
-        for s in f.calls(disp.name):
-            a = s.ev['args'][1]
+        for s in disp.calls_in(f):
+            a = disp.node_arg(s)
             nm = canon(f, a)
 
             def on_event(st, t, s=s, nm=nm):
@@ -436,7 +475,7 @@ def container_rules(P, R, prefix='C19'):
     comparators(P, R, prefix + '.ARITH.1')
     disp = cleanup_callers(P, R, prefix + '.WMC.1')
     dispose_guards(P, R, disp, prefix + '.GRD.1')
-    count_paths(P, R, prefix + '.MPT.1')
+    count_paths(P, R, prefix + '.MPT.1', disp)
     link_insert(P, R, prefix + '.LINK.1')
     link_remove(P, R, prefix + '.LINK.2')
     use_after_dispose(P, R, disp, prefix + '.UAF.1')
